@@ -32,8 +32,8 @@ C[K + "__or.<locals>.reduce_chars"] = dict(
 # subtract_ranges(ranges1, ranges2): the ranges / characters left of ranges1 after removing every range of ranges2
 INV_SR_OUTER = ("0 <= i and i <= LEN(ranges1) and WFR(ranges1) and WFR(ranges2) and "
                 "VEQ(VM(RV(ranges1), RV(ranges2)), VM(RV(ARGS['ranges1']), RV(ARGS['ranges2']))) and "
-                "PREFIX_DISJ(ranges1, i, RV(ranges2))")
-INV_SR_INNER = ("LSAME(ranges1, ENTRY['ranges1']) and i == ENTRY['i'] and PREFIX_DISJ(ranges2, K, ELV(ranges1, i))")
+                "RDISJ(ranges1, i, ranges2, LEN(ranges2))")
+INV_SR_INNER = ("LSAME(ranges1, ENTRY['ranges1']) and i == ENTRY['i'] and RDISJ_ONE(ranges2, K, start_1, end_1)")
 INV_SR_FINAL = ("VEQ(VU(RV(ranges), CV(chars)), PREFIXV(ranges1, K)) and WFC(chars) and WFR(ranges)")
 C[K + "__sub.<locals>.subtract_ranges"] = dict(
     params={"ranges1": "rangestrs", "ranges2": "rangestrs"}, requires="WFR(ranges1) and WFR(ranges2)", raises={}, lists="concrete",
